@@ -3,7 +3,7 @@ classes.  Whenever the class of a receiver is known with certainty (all bases re
 an attribute read must name a member of that class.  Unknown types are never reported."""
 import ast
 
-from ..loader import walk_no_nested
+from ..loader import walk_no_nested, walk_all
 from ..norm import attr_chain
 
 SAFE_EXTERNAL_BASES = {'object', 'typing.NamedTuple', 'NamedTuple', 'Exception', 'abc.ABC', 'ABC', 'enum.Enum', 'Enum'}
@@ -232,7 +232,8 @@ class Typer:
             rounds += 1
             for n in walk_no_nested(f):
                 if isinstance(n, ast.Assign) and len(n.targets) == 1 and isinstance(n.targets[0], ast.Name) and counts.get(n.targets[0].id) == 1:
-                    t = self.expr_type(mod, n.value, env)
+                    # an annotated local (`x: T = v`, kept by the loader as an assignment with its annotation) has the declared type
+                    t = self.ann_type(mod, getattr(n, '_annotation', None)) or self.expr_type(mod, n.value, env)
                     if t is not None and env.get(n.targets[0].id) is None:
                         env[n.targets[0].id] = t
                         changed = True
@@ -297,7 +298,7 @@ def check_attrs(rep, ix, rule, targets):
             if quals is not None and qn not in quals:
                 continue
             env = ty.func_env(modname, f, cls)
-            for n in walk_no_nested(f):
+            for n in walk_all(f):
                 if not isinstance(n, ast.Attribute) or not isinstance(n.ctx, ast.Load):
                     continue
                 if n.attr.startswith('__'):
